@@ -39,28 +39,9 @@ namespace occa {
 
   void modeMemoryPool_t::addModeMemoryRef(modeMemory_t *mem) {
     modeMemoryRing.addRef(mem);
-    /*Find how much of this mem is a new reservation*/
-    dim_t lo = (mem->offset / alignment) * alignment; //Round down to alignment
-    dim_t hi = ((mem->offset + mem->size + alignment - 1)
-                / alignment) * alignment; //Round up
-    for (modeMemory_t* m : reservations) {
-      const dim_t mlo = (m->offset / alignment) * alignment;
-      const dim_t mhi = ((m->offset + m->size + alignment - 1)
-                        / alignment) * alignment;
-      if (mlo >= hi) break;
-      if (mhi <= lo) continue;
-
-      if (mlo <= lo && mhi >= hi) {
-        hi = lo;
-      } else {
-        hi = std::min(hi, mhi);
-        lo = std::max(lo, mlo);
-      }
-      if (lo == hi) break;
-    }
     /*Add this mem to the reservation list*/
     reservations.emplace(mem);
-    reserved += hi-lo;
+    reserved = computeReserved(alignment);
   }
 
   void modeMemoryPool_t::removeModeMemoryRef(modeMemory_t *mem) {
@@ -69,27 +50,30 @@ namespace occa {
     /*Remove this mem from the reservation list*/
     auto pos = reservations.find(mem);
     reservations.erase(pos);
+    reserved = computeReserved(alignment);
+  }
 
-    /*Find how much of this mem is removed from reserved space*/
-    dim_t lo = (mem->offset / alignment) * alignment; //Round down to alignment
-    dim_t hi = ((mem->offset + mem->size + alignment - 1)
-                / alignment) * alignment; //Round up
+  udim_t modeMemoryPool_t::computeReserved(const udim_t align) const {
+    /*
+    Size of the union of the reserved ranges, each rounded out to align.
+    The reservation list is sorted by offset, so one pass merging
+    overlapping or touching aligned ranges is enough
+    */
+    udim_t total = 0;
+    dim_t lo = 0, hi = 0;
     for (modeMemory_t* m : reservations) {
-      const dim_t mlo = (m->offset / alignment) * alignment;
-      const dim_t mhi = ((m->offset + m->size + alignment - 1)
-                        / alignment) * alignment;
-      if (mlo >= hi) break;
-      if (mhi <= lo) continue;
-
-      if (mlo <= lo && mhi >= hi) {
-        hi = lo;
+      const dim_t mlo = (m->offset / align) * align; //Round down to alignment
+      const dim_t mhi = ((m->offset + m->size + align - 1)
+                         / align) * align; //Round up
+      if (mlo > hi) {
+        total += hi - lo;
+        lo = mlo;
+        hi = mhi;
       } else {
-        hi = std::min(hi, mhi);
-        lo = std::max(lo, mlo);
+        hi = std::max(hi, mhi);
       }
-      if (lo == hi) break;
     }
-    reserved -= hi-lo;
+    return total + (hi - lo);
   }
 
   bool modeMemoryPool_t::needsFree() const {
